@@ -7,5 +7,9 @@ PY="${VERIF_PYTHON:-/venv/bin/python}"
 if ! "$PY" -c 'import hypothesis' 2>/dev/null; then
   /venv/bin/pip install --no-index --find-links /opt/veriftools/wheels hypothesis
 fi
+# the coverage-guided stage of the thorough tier (C04, C16, C18) needs atheris: installed beside the checks, never into /venv
+if ! PYTHONPATH="$HERE/.deps" "$PY" -c 'import atheris' 2>/dev/null; then
+  /venv/bin/pip install -q --no-index --find-links /opt/veriftools/wheels --target "$HERE/.deps" atheris || echo "setup: atheris not installable; the fuzz stage will report a harness error"
+fi
 cd "$HERE"
 PYTHONHASHSEED=0 "$PY" -B tools/engine_selftest.py
